@@ -703,7 +703,7 @@ func extraC08Wave2(c *Ctx, r *Report) {
 	isOpen := c.Fn(pkgHealth, "(*CircuitBreaker).IsOpen")
 	var slot *types.Var
 	if isOpen != nil {
-		eachInstr(isOpen, func(in ssa.Instruction) {
+		eachInstr(breakerBody(c, isOpen), func(in ssa.Instruction) {
 			if kind, _, fld, _, isA := atomicFieldCall(in); isA && kind == "cas" {
 				slot = fld
 			}
@@ -719,6 +719,8 @@ func extraC08Wave2(c *Ctx, r *Report) {
 			r.Unresolved("C08-R9", "health.(*CircuitBreaker)."+name)
 			continue
 		}
+		outerF := f
+		f = breakerBody(c, f)
 		isAtomicWrite := func(in ssa.Instruction) (*types.Var, ssa.Value, bool) {
 			kind, _, fld, v, ok := atomicFieldCall(in)
 			if !ok || (kind != "store" && kind != "add") {
@@ -744,7 +746,7 @@ func extraC08Wave2(c *Ctx, r *Report) {
 				release = in
 			}
 		})
-		key := fname(f) + ":releases-half-open-slot"
+		key := fname(outerF) + ":releases-half-open-slot"
 		switch {
 		case first == nil:
 			r.Undecided("C08-R9", key, f.Pos(), "no atomic state update found")
